@@ -192,3 +192,36 @@ def sortU8 : List UInt8 → List UInt8
   | x :: rest => insertU8 x (sortU8 rest)
 
 end Ike.Go
+
+namespace Ike.Go
+open Ike
+
+/-! ### `math/big` as far as the DH groups use it: a `*big.Int` is a natural number -/
+
+def hexDigit (c : UInt8) : Option Nat :=
+  if 48 ≤ c.toNat ∧ c.toNat ≤ 57 then some (c.toNat - 48)
+  else if 65 ≤ c.toNat ∧ c.toNat ≤ 70 then some (c.toNat - 55)
+  else if 97 ≤ c.toNat ∧ c.toNat ≤ 102 then some (c.toNat - 87)
+  else none
+
+/-- `new(big.Int).SetString(s, 16)`: the value and whether `s` is a non-empty string of hexadecimal digits -/
+def bigSetHex (s : Bytes) : Nat × Bool :=
+  if s = [] then (0, false) else
+  match s.foldl (fun acc c => match acc, hexDigit c with
+      | some n, some d => some (n * 16 + d)
+      | _, _ => none) (some 0) with
+  | some n => (n, true)
+  | none => (0, false)
+
+/-- square-and-multiply on the bits of the exponent (fuel = number of bits + 1) -/
+def powModAux (m : Nat) : Nat → Nat → Nat → Nat → Nat
+  | 0, _, _, acc => acc
+  | fuel + 1, b, e, acc =>
+    if e = 0 then acc
+    else powModAux m fuel (b * b % m) (e / 2) (if e % 2 = 1 then acc * b % m else acc)
+
+/-- `z.Exp(x, y, m)`: `x**y mod m` for `m > 0`, `x**y` for `m = 0` -/
+def bigExp (x y m : Nat) : Nat :=
+  if m = 0 then x ^ y else powModAux m (y.log2 + 2) (x % m) y (1 % m)
+
+end Ike.Go
